@@ -90,6 +90,11 @@ async def run_scenario(sc: dict, loop) -> dict:
                 await asyncio.sleep(d / 1_000_000)
             if durs[jid].get("fail"):
                 raise ValueError("job fails")
+            if durs[jid].get("cancelled"):
+                # the invocation ends CANCELLED (the actor awaits something that somebody else cancelled): not an Exception
+                f = asyncio.get_running_loop().create_future()
+                f.cancel()
+                await f
             return jid
         finally:
             running["n"] -= 1
@@ -259,7 +264,11 @@ def to_events(sc: dict, r: dict):
 
 def final_obs(sc: dict, r: dict) -> list[int]:
     lab = r["label"]
-    rem = sorted(int(m.key.id_[1:]) for q in sc["queues"] for part in ("simple", "processing") for m in r["remaining"][q][part])
+    # an invocation that ended cancelled (not an Exception) made no disposition: its message stays in the processing set and is
+    # returned by the consumer's finish() - outside the model (C02's note on BaseException endings); not counted as a leftover
+    undisposed = {j["id"] for j in sc["jobs"] if j.get("cancelled") and j["id"] in {int(x) for x in r["starts"]}} if sc.get("jobs") else set()
+    rem = sorted(i for i in (int(m.key.id_[1:]) for q in sc["queues"] for part in ("simple", "processing") for m in r["remaining"][q][part])
+                 if i not in undisposed)
     return [1, len(r["starts"]), lab["processed"], lab["value"], 1 if lab["stop_set"] else 0, lab["n_tasks"], len(rem)] + rem
 
 
